@@ -306,6 +306,8 @@ fn format_type_info_internal(
     context: TypeInfoContext,
     shape: Shape,
 ) -> TypeInfo {
+    #[cfg(feature = "verif")]
+    crate::verif::tick();
     match type_info {
         TypeInfo::Array {
             braces,
